@@ -1069,9 +1069,14 @@ func (c *Ctx) doSelect(st *State, x *ssa.Select) ([]*State, bool) {
 			tv.V = append(tv.V, c.symbolic(st, et, "select.recv."+chanName(s.Chan)))
 		}
 	}
+	ri := 2
 	for i, s := range x.States {
 		if s.Dir == types.SendOnly {
 			st.CallLog = append(st.CallLog, CallRec{Callee: "selsend:" + chanName(s.Chan), Args: []Value{c.val(st, s.Send)}, Cond: Eq(idx, c.idx(int64(i)))})
+		} else {
+			// the value received if this case is chosen
+			st.CallLog = append(st.CallLog, CallRec{Callee: "selrecv:" + chanName(s.Chan), Args: []Value{tv.V[ri]}, Cond: Eq(idx, c.idx(int64(i)))})
+			ri++
 		}
 	}
 	fr.Env[x] = tv
